@@ -19,11 +19,11 @@ fn follow_check(mode: TraversalMode) {
     let s = walk_a(0, 0, mode, 0, false, false, true);
     let mut node = 1;
     while node < N {
-        let expect = if node == 8 { 0 } else { 1 };      // 8 is the target directory itself: its CONTENT (9) is listed, the links 6 and 7 are listed
+        let expect = if node == 8 { 0 } else { 1 };      // 8 is the target directory itself: its CONTENT (9) is listed; all four links are listed
         assert!(count(&s, node as u8) == expect, "OBL C18.walk.follow: every entry under the root or behind a link is listed exactly once");
         node += 1;
     }
-    assert!(s.n == 8, "OBL C18.walk.follow: nothing else is listed (a link to an ancestor does not replay the ancestor)");
+    assert!(s.n == 10, "OBL C18.walk.follow: nothing else is listed (a link to an ancestor does not replay the ancestor; a link to a file and a dangling link are just listed)");
     assert!(s.error_count == 0, "OBL C18.walk.follow: no error when nothing is unreadable (relative target resolved against the directory of the link)");
 }
 #[kani::proof]
@@ -38,12 +38,12 @@ fn c18_walk_follow_dfs() { kani::cover!(true); follow_check(TraversalMode::Dfs);
 fn c18_walk_nofollow() {
     kani::cover!(true);
     let s = walk(0, 0, TraversalMode::Bfs, 0, false);
-    assert!(s.n == 7 && count(&s, 6) == 1 && count(&s, 7) == 1 && count(&s, 8) == 0 && count(&s, 9) == 0, "OBL C18.walk.nofollow: links are listed once, nothing behind them");
+    assert!(s.n == 9 && count(&s, 6) == 1 && count(&s, 7) == 1 && count(&s, 10) == 1 && count(&s, 11) == 1 && count(&s, 8) == 0 && count(&s, 9) == 0, "OBL C18.walk.nofollow: links are listed once, nothing behind them");
     assert!(s.error_count == 0, "OBL C18.walk.nofollow: no error");
 }
 #[kani::proof]
 #[kani::unwind(13)]
 fn canary_walk18_must_fail() {
     let s = walk(0, 1, TraversalMode::Bfs, 0, false);
-    assert!(s.n == 7, "CANARY must fail");
+    assert!(s.n == 9, "CANARY must fail");
 }
